@@ -18,7 +18,8 @@ Environment (all optional; nothing happens unless PYTHON_MYPY_VERIF=1 and C04_SP
        "name": entry name ("" for commit), "occ": occurrence number of (kind, name) in this process,
        "ok": result of a write (true/false), "dirty": for sqlite commits: whether anything was committed}
   The line is written AFTER the operation has been executed: the trace lists completed operations
-  ("injected": true marks a write that was turned into a failure).
+  ("injected": true marks a write that was turned into a failure).  Before the operation a {"begin": true, ...}
+  line is written: a begin without completion = the process was killed from outside inside the operation.
 * crash: the process calls os._exit(70) (scope=process) or kills its whole process group with SIGKILL
   (scope=group: "the run is killed") immediately before / after the identified operation.
 * fail: the identified writes are not performed and return False -- the documented failure mode of
@@ -97,6 +98,11 @@ def install() -> None:
         failing = kind in ("write", "remove") and ((role, kind, name, occ) in fails or ("any", kind, name, occ) in fails)
         if matches(kind, name, occ, "before"):
             die()
+        if fd >= 0:
+            # "begin" record: an operation with a begin but no completion record (the process was killed from
+            # outside in between) may or may not have taken effect
+            os.write(fd, (json.dumps({"begin": True, "role": role, "w": widx, "pid": os.getpid(), "kind": kind,
+                                      "name": name, "occ": occ}, sort_keys=True) + "\n").encode())
         return occ, failing
 
     def done(kind: str, name: str, occ: int, extra: dict) -> None:
